@@ -20,7 +20,7 @@ func init() {
 		Explanation: "Decides the limit mechanism, not byte equality for all chunkings: R1 the four body entry points (Write/ReadFrom x request/response) have the same decision skeleton under the renaming request<->response (set of branch conditions, limit-error flag, Reject interruption with 413/500, truncation to limit-length, single Process*Body on ProcessPartial), compared pairwise with a reasoned allowlist of differences, and every rejection site answers 413 on the request side and 500 on the response side; " +
 			"R2 nothing beyond the limit is stored: both writes in BodyBuffer.Write are dominated by length <= Limit - len(data), and the slice handed to the buffer by the Write* entry points has a bound that is provably >= 0 and <= len(b) (guard facts + the relational step limit-length <= n from length+n >= limit); " +
 			"R3 every limit directive stores into its own side's settings only (request vs response); limits are sane: WAF.Validate bounds every limit, coraza.NewWAF cannot succeed without passing Validate, and every run-time store to the per-transaction limits is range-checked against (0, WAF limit]; R4 body readers advance by the bytes they return; " +
-			"R4 also: every direct Read call on a reader consumes the n bytes it returned on every path (also when the error is io.EOF); R5 BodyBuffer.length is written only by Write (cumulative) and Reset; R6 once spilled to disk the buffer never writes to memory again (spill decision on the cumulative length, or memory write guarded by writer == nil).",
+			"R4 also: every direct Read call on a reader consumes the n bytes it returned on every path (also when the error is io.EOF); R5 BodyBuffer.length is written only by Write (cumulative) and Reset; R6 once spilled to disk the buffer never writes to memory again (spill decision on the cumulative length, or memory write guarded by writer == nil). R6 also: bodyBufferReader.Read takes the in-memory branch only on paths that have just tested the buffer's spill file (or the build's file-system switch), i.e. a reader follows the body to disk.",
 		NotDecided: []string{
 			"byte equality of what is read back for every chunking",
 			"equivalence of in-memory and on-disk storage contents",
